@@ -662,10 +662,17 @@ func (e *wmEnv) exec(p *wmPathIn, idx int) (out wmStepOut, cont bool) {
 		peer := &wmPeer{addr: wmAddr(want.A), disc: make(chan struct{})}
 		select {
 		case e.peerCh <- peer:
-			w := <-e.newW
-			w.i = len(e.workers[want.A]) + 1
-			e.workers[want.A] = append(e.workers[want.A], w)
-			arm(nil)
+			select {
+			case w := <-e.newW:
+				w.i = len(e.workers[want.A]) + 1
+				e.workers[want.A] = append(e.workers[want.A], w)
+				arm(nil)
+			case <-time.After(e.hang):
+				// the dispatcher took the peer but made no worker for
+				// it: the peer is connected (environment fact) and
+				// nobody will ever hand it a job
+				hangStep("noworker")
+			}
 		case <-time.After(e.hang):
 			hangStep("blocked")
 		}
